@@ -60,6 +60,17 @@ func main() {
 		}
 		d := &sym.Driver{VerifDir: verifDir, Spec: spec, Tier: tier, Seed: seed, Workers: *workers, Verbose: *verbose, Known: known}
 		os.Exit(d.Run())
+	case "run":
+		// gosym run <property> <harness> [k=v ...]   (debugging: one instance, progress output)
+		spec := loadSpec(verifDir, os.Args[2])
+		params := map[string]int{}
+		for _, kv := range os.Args[4:] {
+			i := strings.Index(kv, "=")
+			v, _ := strconv.Atoi(kv[i+1:])
+			params[kv[:i]] = v
+		}
+		d := &sym.Driver{VerifDir: verifDir, Spec: spec, Tier: "quick", Verbose: true}
+		os.Exit(d.RunOne(os.Args[3], params))
 	case "replay":
 		if len(os.Args) < 4 {
 			usage()
